@@ -15,8 +15,8 @@ int h_parse_line(const char* s, h_line* l) {
         char* eq = strchr(t, '=');
         if (!eq) return 1;
         *eq = 0;
-        if (side == 0 && l->n_in < 160) { l->in[l->n_in].key = t; l->in[l->n_in++].val = eq + 1; }
-        else if (side == 1 && l->n_out < 160) { l->out[l->n_out].key = t; l->out[l->n_out++].val = eq + 1; }
+        if (side == 0 && l->n_in < 400) { l->in[l->n_in].key = t; l->in[l->n_in++].val = eq + 1; }
+        else if (side == 1 && l->n_out < 400) { l->out[l->n_out].key = t; l->out[l->n_out++].val = eq + 1; }
     }
     return l->op ? 0 : 1;
 }
